@@ -12,6 +12,12 @@ import (
 
 //verif:guarded Manager mu listeners
 
+// C16 "mutexes around every shared map": every method of these types (and every
+// function literal inside them), whether or not it has a contract of its own,
+// is swept for accesses to the guarded fields without the lock.
+//
+//verif:sweep-type Manager props=C16 kinds=lock
+
 // Monitor invariant: the table exists; every entry has a listener.
 //
 //verif:invariant Manager mu
